@@ -101,33 +101,91 @@ class Jitter:
         self.pol.randint = self.saved
 
 
+def _next_event(it, s, u, items):
+    """One next() on schedule number s -> the trace event (and the item appended to items)."""
+    try:
+        d = next(it)
+    except StopIteration:
+        return {"e": "Stop", "s": s, "dlo": 0, "dhi": 0}
+    except Exception as ex:                              # noqa - misbehaving code under test
+        return {"e": "Raise", "s": s, "cls": type(ex).__name__, "dlo": 0, "dhi": 0}
+    items.append(d)
+    if isinstance(d, bool) or not isinstance(d, (int, float)) or (isinstance(d, float) and not math.isfinite(d)):
+        return {"e": "BadItem", "s": s, "repr": repr(d)[:40], "dlo": 0, "dhi": 0}
+    lo, hi = enclose(d, u)
+    return {"e": "Emit", "s": s, "dlo": lo, "dhi": hi}
+
+
 def record(kind, params, jitter="rng", rng=None, limit=LIMIT):
-    """Returns (trace, items): the trace for Trace_Reconnect and the raw items (for reporting)."""
+    """One policy object, one schedule.  Returns (trace, items): the trace for Trace_Reconnect and the raw items."""
     policy, b, m, attempts, u = spec_params(kind, params)
-    trace = [{"e": "New", "policy": policy, "base": b, "max": m, "attempts": attempts}]
+    trace = [{"e": "New", "s": 0, "policy": policy, "base": b, "max": m, "attempts": attempts, "dlo": 0, "dhi": 0}]
     items = []
     with Jitter(jitter, rng):
         try:
             it = iter(make_policy(kind, params).new_schedule())
+            trace.append({"e": "Sched", "s": 1, "dlo": 0, "dhi": 0})
         except Exception as ex:                              # noqa - misbehaving code under test
-            trace.append({"e": "Raise", "cls": type(ex).__name__, "dlo": 0, "dhi": 0})
+            trace.append({"e": "Raise", "s": 1, "cls": type(ex).__name__, "dlo": 0, "dhi": 0})
             return trace, items
         for _ in range(limit):
-            try:
-                d = next(it)
-            except StopIteration:
-                trace.append({"e": "Stop", "dlo": 0, "dhi": 0})
+            ev = _next_event(it, 1, u, items)
+            trace.append(ev)
+            if ev["e"] != "Emit":
                 break
-            except Exception as ex:                          # noqa - misbehaving code under test
-                trace.append({"e": "Raise", "cls": type(ex).__name__, "dlo": 0, "dhi": 0})
-                break
-            items.append(d)
-            if isinstance(d, bool) or not isinstance(d, (int, float)) or (isinstance(d, float) and not math.isfinite(d)):
-                trace.append({"e": "BadItem", "repr": repr(d)[:40], "dlo": 0, "dhi": 0})
-                break
-            lo, hi = enclose(d, u)
-            trace.append({"e": "Emit", "dlo": lo, "dhi": hi})
     return trace, items
+
+
+def record_multi(kind, params, jitter="rng", rng=None, nsched=3, per_limit=40):
+    """One policy object, SEVERAL schedules (a host going down again, several hosts down at once): the first
+    schedule is partly consumed before the second is taken, then all live ones are advanced in a seeded random
+    interleaving, the last one being taken while the others are under way.  Every schedule is followed until it
+    ends or has produced per_limit items (per_limit must exceed a finite attempt limit).
+    Returns (trace, per-schedule item counts)."""
+    policy, b, m, attempts, u = spec_params(kind, params)
+    trace = [{"e": "New", "s": 0, "policy": policy, "base": b, "max": m, "attempts": attempts, "dlo": 0, "dhi": 0}]
+    counts, its, live = {}, {}, []
+    with Jitter(jitter, rng):
+        try:
+            pol = make_policy(kind, params)
+        except Exception as ex:                              # noqa
+            trace.append({"e": "Raise", "s": 0, "cls": type(ex).__name__, "dlo": 0, "dhi": 0})
+            return trace, counts
+
+        def take():
+            s = len(its) + 1
+            try:
+                its[s] = iter(pol.new_schedule())
+            except Exception as ex:                          # noqa
+                trace.append({"e": "Raise", "s": s, "cls": type(ex).__name__, "dlo": 0, "dhi": 0})
+                return False
+            counts[s] = 0
+            live.append(s)
+            trace.append({"e": "Sched", "s": s, "dlo": 0, "dhi": 0})
+            return True
+
+        def advance(s):
+            sink = []
+            ev = _next_event(its[s], s, u, sink)
+            trace.append(ev)
+            counts[s] += len(sink)
+            if ev["e"] != "Emit" or counts[s] >= per_limit:
+                live.remove(s)
+            return ev["e"] in ("Emit", "Stop")
+
+        if not take():
+            return trace, counts
+        for _ in range(rng.randint(0, 3)):                   # the first reconnection series is under way ...
+            if 1 in live and not advance(1):
+                return trace, counts
+        while len(its) < nsched or live:
+            if len(its) < nsched and (not live or rng.random() < 0.2):
+                if not take():
+                    return trace, counts
+                continue
+            if not advance(rng.choice(live)):
+                return trace, counts
+    return trace, counts
 
 
 # ------------------------------------------------------------------ the consumer of schedules (pool.py)
@@ -141,37 +199,58 @@ class _Scheduler:
 
 
 def drive_handler(kind, params, jitter="rng", rng=None, limit=200):
-    """Feed a real schedule to pool._ReconnectionHandler with a reconnect that always fails.
-    Returns {"attempts": number of try_reconnect calls, "delays": delays handed to the scheduler,
-             "start_raised": exception class name or None}."""
+    """Feed real schedules of ONE policy object to pool._ReconnectionHandler with a reconnect that always fails:
+    two handlers started together (two hosts down at once) and, when they have given up, a third one (a host
+    going down again).  Returns the worst handler's record
+    {"attempts": number of try_reconnect calls, "truncated": still going at the step limit, ...} plus
+    "per_handler": [attempts of each]."""
     pool = repo_import("cassandra.pool")
-    out = {"attempts": 0, "delays": [], "start_raised": None, "gave_up": False}
+    outs = []
 
-    class H(pool._ReconnectionHandler):
-        def try_reconnect(self):
-            out["attempts"] += 1
-            raise OSError("node is down")
+    def handler(sched, policy):
+        out = {"attempts": 0, "start_raised": None, "gave_up": False}
+        outs.append(out)
 
-        def on_exception(self, exc, next_delay):
-            if next_delay is None:
-                out["gave_up"] = True
-            return True
+        class H(pool._ReconnectionHandler):
+            def try_reconnect(self):
+                out["attempts"] += 1
+                raise OSError("node is down")
 
-        def on_reconnection(self, conn):
-            pass
+            def on_exception(self, exc, next_delay):
+                if next_delay is None:
+                    out["gave_up"] = True
+                return True
 
-    with Jitter(jitter, rng):
-        sched = _Scheduler()
-        h = H(sched, iter(make_policy(kind, params).new_schedule()), lambda: None)
+            def on_reconnection(self, conn):
+                pass
+
+        h = H(sched, iter(policy.new_schedule()), lambda: None)
         try:
             h.start()
         except BaseException as ex:          # noqa  StopIteration from an empty schedule
             out["start_raised"] = type(ex).__name__
+
+    def drain(sched, budget):
         n = 0
-        while sched.q and n < limit:
+        while sched.q and n < budget:
             delay, fn, a, kw = sched.q.pop(0)
-            out["delays"].append(delay)
             fn(*a, **kw)
             n += 1
-        out["truncated"] = bool(sched.q)
-    return out
+        return bool(sched.q)
+
+    n_att = params[-1]
+    with Jitter(jitter, rng):
+        policy = make_policy(kind, params)
+        sched = _Scheduler()
+        handler(sched, policy)
+        handler(sched, policy)
+        truncated = drain(sched, 2 * limit)
+        handler(sched, policy)
+        truncated = drain(sched, limit) or truncated
+    per = [o["attempts"] for o in outs]
+    worst = max(outs, key=lambda o: abs(o["attempts"] - (n_att if n_att is not None else o["attempts"])))
+    res = dict(worst)
+    res["per_handler"] = per
+    res["truncated"] = truncated
+    res["delays"] = []
+    return res
